@@ -314,7 +314,19 @@ def ang2dir_rule(ctx, rule="R09.7"):
             return trig[b.id], b.id
         return None, None
 
+    class _PushIndex(ast.NodeTransformer):
+        """np.sin(A)[S] -> np.sin(A[S]): an elementwise function commutes with indexing (the spelling left when a local `s = np.sin(A)` is inlined)"""
+
+        def visit_Subscript(self, n):
+            self.generic_visit(n)
+            if isinstance(n.value, ast.Call) and ast.unparse(n.value.func) in ("np.sin", "np.cos") and len(n.value.args) == 1 and not n.value.keywords:
+                return ast.Call(n.value.func, [ast.Subscript(n.value.args[0], n.slice, ast.Load())], [])
+            return n
+
     def value(e, n_ang, vec):
+        import copy as _copy
+
+        e = ast.fix_missing_locations(_PushIndex().visit(_copy.deepcopy(e)))
         if isinstance(e, ast.Call) and ast.unparse(e.func) == "np.prod" and len(e.args) == 1 and {k.arg: ast.unparse(k.value) for k in e.keywords} == {"axis": "1"}:
             inner = e.args[0]
             fnm, loc = trig_base(inner)
@@ -460,6 +472,9 @@ def grid_layout(ctx, rule="R09.5"):
 
 def run(ctx):
     from .C08 import mask_guard, nan_guard
+    from .C08 import axis_wrapper
+
+    axis_wrapper(ctx, rule="R09.13")  # masked cells and missing values of a grid behave like removed points only if the mask handed to the kernel is (given mask) OR (missing) (shared with C08)
 
     nan_guard(ctx, rule="R09.12")  # missing values behave like removed points only if a pair needs BOTH values present (shared with C08)
 
